@@ -26,6 +26,10 @@ def rule_infer_thread(db: ProgramDB) -> List[Instance]:
         if site and any("_child_vars_" in o for o in site[0].origins):
             i.rule = "INFER-THREAD"
             out.append(i)
+        elif not site and i.construct.startswith("Variable.") and "_child_vars_" in i.construct:
+            # the sequential binder of the constructor arguments handing the accumulated binding to its recursion
+            i.rule = "INFER-THREAD"
+            out.append(i)
     if len(out) < 1:
         out.append(inst("INFER-THREAD", UNDECIDED, "", "sites", "the evaluation sites of constructor arguments were not found"))
     return out
